@@ -104,7 +104,7 @@ theorem C03_kept_on_failure (s : St) (u : Nat) (hpc : s.pc = .running u false) :
   simp [fireTimed, hpc]
 
 theorem C03_delivered_on_success (s : St) (u : Nat) (hpc : s.pc = .running u true) :
-    (fireTimed s u 1).inputs = [] ∧ (fireTimed s u 1).delivered = s.delivered ++ s.inputs ∧
+    (fireTimed s u 1).inputs = [] ∧ (fireTimed s u 1).delivered = s.delivered ++ sortNat s.inputs ∧
     (fireTimed s u 1).event = true := by
   simp [fireTimed, hpc, setEvent]
 
